@@ -712,7 +712,10 @@ func c08Run(c *kit.Ctx, m *cmModel, h *c08Handler, sc c08Scn, tomb, ntype string
 		return []kit.S{s}
 	}
 	st.OnBranch = func(br kit.Branch, s kit.S) (t, fl []kit.S, handled bool) {
-		if br.Kind != kit.BrRange || normObj(br.Range.X) != h.points {
+		if br.Kind == kit.BrCase {
+			return cmTagCase(st, br, s)
+		}
+		if br.Kind != kit.BrRange || br.Range == nil || normObj(br.Range.X) != h.points {
 			return nil, nil, false
 		}
 		k := fmt.Sprintf("it%d", br.Range.Pos())
